@@ -16,7 +16,7 @@ ASSUMPTIONS = ["a duplicated ack frame may legitimately be re-parsed; 'no effect
 RULE = ("twin runs: a baseline two-endpoint scenario and a copy that differs only by injected acknowledgements at one endpoint — replays of ack frames already "
         "delivered (immediately or much later), ack groups naming logged frames with the wrong nonce parity, groups naming unknown/forgotten/future frame ids; "
         "every output of the victim after the first injection (frames, counters, rtt bits, send rate) must coincide with the baseline. Non-trivial: at least one "
-        "injected ack frame parsed and the victim had unacknowledged frames. Distinct by (injection kinds, windows, volume).")
+        "injected ack frame parsed and the victim had unacknowledged frames. Distinct by (injection kinds, windows, volume). Second stream `overlap`: crafted groups fresh for an old frame and repeating a newer one; oracle rtt_sample (smoothed RTT = RFC 5348 average of the exact samples of the newest newly acknowledged frame).")
 
 U32 = 0xFFFFFFFF
 
